@@ -660,6 +660,12 @@ def rule_directories(ctx, p, cfg, rid="R10"):
                             nonconst = [cmps[0]]
                             good = True
                 if good:
+                    g0 = strip(nonconst[0])
+                    if g0[0] == "phi":
+                        # the comparison joined with a plain `false` (no parent on one side: nothing to create)
+                        alts_ = [a_ for a_ in g0[1] if deep_strip(a_) != ("const", "bool", False)]
+                        if len(alts_) == 1:
+                            nonconst = [alts_[0]]
                     nf = cmp_nf(nonconst[0], True)
                     zipped = None
                     if nf is None:
